@@ -251,10 +251,82 @@ def sources_phase():
     return total, bad
 
 
+def run_topology(order, ops):
+    """replay one subscription order of spec/Topology.tla on the real with_store: every
+    operator of the model is a harness operator that answers the topology probe with
+    create_state(<its name>) and records the id it was given"""
+    import rx
+    import rxsci as rs
+    from rx.subject import Subject
+    n = len(ops)
+    got = [[None] * len(ops[s]) for s in range(n)]
+
+    def probe_op(s, q, name):
+        def _op(source):
+            def on_subscribe(observer, scheduler):
+                def on_next(i):
+                    if type(i) is rs.state.ProbeStateTopology:
+                        got[s][q] = i.topology.create_state(name=name, data_type='obj')
+                    observer.on_next(i)
+                return source.subscribe(on_next=on_next, on_error=observer.on_error,
+                                        on_completed=observer.on_completed, scheduler=scheduler)
+            return rs.MuxObservable(on_subscribe)
+        return _op
+    store = rs.state.StoreManager(store_factory=rs.state.MemoryStore)
+    subjects = [Subject() for _ in range(n)]
+    pipes = [[probe_op(s, q, name) for q, name in enumerate(ops[s])] for s in range(n)]
+    if n == 1:
+        obs = [subjects[0].pipe(rs.cast_as_mux_observable(), rs.state.with_store(store, rx.pipe(*pipes[0])))]
+    else:
+        muxed = rs.state.with_store(store, sources=[sj.pipe(rs.cast_as_mux_observable()) for sj in subjects])
+        obs = [muxed[s].pipe(*pipes[s]) if pipes[s] else muxed[s] for s in range(n)]
+    for s in order:
+        obs[s - 1].subscribe(on_next=lambda i: None, on_error=lambda e: None)
+    names = [st.name for st in store.topology.states] if store.topology is not None else None
+    return got, names
+
+
+def topology_phase():
+    """spec/Topology.tla: unique, dense state ids for every subscription order; the deviation
+    (a topology per source) must be refuted; every order is replayed on the real code"""
+    total = bad = 0
+    for cid in range(1, 7):
+        c = dict(CfgId=cid, Deviation='none')
+        r = C.run_tlc('Topology', C.cfg(constants=c, invariants=['UniqueIds', 'DenseIds', 'NamesUnique',
+                                                                 'StoreComplete', 'EmitBehaviour']), workers=1)
+        if r.violated:
+            print('Topology model violates %s for configuration %d' % (r.violated, cid))
+            return None, None
+        behs = C.extract_printed(r.stdout, 'BEH')
+        ops = [list(o) for o in behs[0][1]]
+        if len(ops) > 1 and sum(1 for o in ops if o) > 1:
+            d = C.run_tlc('Topology', C.cfg(constants=dict(c, Deviation='per-source-topology'),
+                                            invariants=['UniqueIds']), workers=1)
+            if d.violated != 'UniqueIds':
+                print('Topology: the deviation per-source-topology is not refuted for %s' % (ops,))
+                return None, None
+        for (_, _ops, order, mids, mtopo) in behs:
+            total += 1
+            got, names = run_topology(list(order), ops)
+            want_ids = [list(x) for x in mids]
+            want_names = ['%s-%d' % (nm, k) for (nm, k) in mtopo]
+            if got != want_ids or names != want_names:
+                bad += 1
+                print('EXTRA-MISMATCH topology ops=%s order=%s model=%s %s real=%s %s' % (
+                    ops, list(order), want_ids, want_names, got, names))
+        print('topology %s: %d states, %d subscription orders replayed' % (ops, r.distinct, len(behs)))
+    return total, bad
+
+
 def main():
     C.use_repo()
     bad = 0
     total = 0
+    t4, b4 = topology_phase()
+    if t4 is None:
+        return 2
+    total += t4
+    bad += b4
     t2, b2 = sources_phase()
     if t2 is None:
         return 2
